@@ -6,9 +6,11 @@ package par2
 
 import (
 	"bytes"
+	"fmt"
 	"os"
 	"path/filepath"
 	"reflect"
+	"strings"
 )
 
 type fileIO interface {
@@ -87,3 +89,34 @@ func verify(fileIO fileIO, parPath string) (int, error) {
 
 // Verify is the exported entry point.
 func Verify(parPath string) (int, error) { return verify(defaultFileIO{}, parPath) }
+
+// --- ERRKEEP: a deferred clean-up must not overwrite an earlier error
+func writeOverwriting(path string, data []byte) (err error) {
+	f, err := os.OpenFile(path, os.O_WRONLY|os.O_CREATE|os.O_TRUNC, 0600)
+	if err != nil {
+		return err
+	}
+	defer func() { err = f.Close() }()
+	_, err = f.Write(data)
+	return err
+}
+
+func writeKeeping(path string, data []byte) (err error) {
+	f, err := os.OpenFile(path, os.O_WRONLY|os.O_CREATE|os.O_TRUNC, 0600)
+	if err != nil {
+		return err
+	}
+	defer func() {
+		if cerr := f.Close(); err == nil {
+			err = cerr
+		}
+	}()
+	_, err = f.Write(data)
+	return err
+}
+
+// --- EXTCUT / FMTCONST: extension cut as a character set; a path used as a format
+func baseByCutset(indexPath string) string { return strings.TrimRight(indexPath, filepath.Ext(indexPath)) }
+func baseBySuffix(indexPath string) string { return strings.TrimSuffix(indexPath, filepath.Ext(indexPath)) }
+func nameByFormat(base string, i int) string { return fmt.Sprintf(base+".vol%02d.par2", i) }
+func nameByArg(base string, i int) string    { return fmt.Sprintf("%s.vol%02d.par2", base, i) }
